@@ -6,7 +6,7 @@ rows = []
 for d in sorted(glob.glob(os.path.join(root, 'seeded', '*'))):
     m = json.load(open(os.path.join(d, 'meta.json')))
     name = os.path.basename(d)
-    rnd = '9' if name.startswith('r9-') else '8' if name.startswith('r8-') else '7' if name.startswith('r7-') else '6' if name.startswith('r6-') else '5' if name.startswith('r5-') else '4' if name.startswith('R') else (re.match(r'C\d\dr(\d)', name) or [0, '1'])[1]
+    rnd = '10' if name.startswith('r10-') else '9' if name.startswith('r9-') else '8' if name.startswith('r8-') else '7' if name.startswith('r7-') else '6' if name.startswith('r6-') else '5' if name.startswith('r5-') else '4' if name.startswith('R') else (re.match(r'C\d\dr(\d)', name) or [0, '1'])[1]
     esc = lambda t: t.replace('|', '\\|').replace('\n', ' ')
     rows.append('| `%s` | %s | %s | %s | %s | %s |' % (name, m['property'], rnd, esc(m['needs_to_manifest']), ', '.join(m['caught_by_quick']) or '—', esc(m['history'])))
 table = '\n'.join(['| seeded change (`seeded/<name>/`) | property | round | needs, to manifest | caught by (quick) | first run / after strengthening |',
